@@ -494,15 +494,25 @@ func (c *Cluster) PumpOnce() int {
 // RedeliverAllGossip delivers every payload the pump has ever handed out once more, in the
 // original order, to every live node (late retransmissions: delivery "any number of times").
 func (c *Cluster) RedeliverAllGossip() int {
+	return c.RedeliverGossip(func(msg int, node uint64) bool { return true })
+}
+
+// RedeliverGossip re-delivers, in the original order, the payloads for which pick(index, node) is
+// true: late retransmissions of SOME messages to SOME nodes.
+func (c *Cluster) RedeliverGossip(pick func(msg int, node uint64) bool) int {
 	c.mu.Lock()
 	log := append([][]byte{}, c.gossipLog...)
 	c.mu.Unlock()
-	for _, b := range log {
+	n := 0
+	for i, b := range log {
 		for _, m := range c.nodesSnapshot() {
-			m.State.Distributor().NotifyMsg(b)
+			if pick(i, m.ID) {
+				m.State.Distributor().NotifyMsg(b)
+				n++
+			}
 		}
 	}
-	return len(log)
+	return n
 }
 
 // FailNodeStaggered is FailNode with the survivors learning of the failure one after the other:
